@@ -128,7 +128,7 @@ fn history(seed: u64, st: &mut Stats, max_users: usize) {
     let mut old_msk: Option<Vec<u8>> = ser(&h.msk).ok();
     let mut unknown_tests = 0;
     for _ in 0..n_ops {
-        let k = rng.weighted(&[6, 5, 2, 2, 1, 2, 2]);
+        let k = rng.weighted(&[6, 5, 2, 2, 1, 2, 2, 2]);
         kinds.push((b'a' + k as u8) as char);
         match k {
             0 => {
@@ -201,6 +201,33 @@ fn history(seed: u64, st: &mut Stats, max_users: usize) {
                     }
                 }
             }
+            7 => {
+                // a tampered copy of an issued key (same known id, bad signature) is refused; the
+                // genuine key must stay registered and refreshable
+                if h.usks.is_empty() {
+                    continue;
+                }
+                let i = rng.below(h.usks.len());
+                let Some(mut b) = ser(&h.usks[i]).ok() else { continue };
+                let n = b.len();
+                b[n - 1 - rng.below(32)] ^= 1 << rng.below(8);
+                let Out::Ok(mut forged) = de::<UserSecretKey>(&b) else { continue };
+                let out = call(|| h.cc.refresh_usk(&mut h.msk, &mut forged, rng.chance(1, 2)));
+                st.bump("forged_refresh_attempts");
+                if out.is_ok() {
+                    fail(st, "tampered-key-accepted", "a key with an altered signature was refreshed".into(), seed);
+                    return;
+                }
+                if !check_all(&mut h, st, "refused-forgery", seed) {
+                    return;
+                }
+                let mut u = h.usks[i].clone();
+                if !call(|| h.cc.refresh_usk(&mut h.msk, &mut u, true)).is_ok() {
+                    fail(st, "genuine-key-refused-after-a-forgery-was-refused", "the issued key no longer refreshes".into(), seed);
+                    return;
+                }
+                h.usks[i] = u;
+            }
             5 => {
                 // remember the master key as it is now (an older serialization later)
                 if old_msk.is_none() || rng.chance(1, 4) {
@@ -257,7 +284,7 @@ fn history(seed: u64, st: &mut Stats, max_users: usize) {
         st.shapes.insert(fnv(format!("{users}|{kinds}").as_bytes()));
     }
     if st.samples.len() < 2 {
-        st.samples.push(json!({"history_seed": seed, "users": users, "ops": kinds, "legend": "a=keygen b=refresh c=msk-roundtrip d=rekey e=usk-roundtrip f=snapshot-msk g=refresh-against-older-msk", "unknown_id_attempts": unknown_tests}));
+        st.samples.push(json!({"history_seed": seed, "users": users, "ops": kinds, "legend": "a=keygen b=refresh c=msk-roundtrip d=rekey e=usk-roundtrip f=snapshot-msk g=refresh-against-older-msk h=refused-forgery-then-genuine-refresh", "unknown_id_attempts": unknown_tests}));
     }
 }
 
